@@ -44,6 +44,13 @@ def set_ir(draw, nz, centre, families=None, allow_lift=True, max_pieces=3):
         if f == 'box':
             lo = [ci - draw(st.sampled_from(HALF)) for ci in c]
             hi = [ci + draw(st.sampled_from(HALF)) for ci in c]
+            if draw(st.integers(0, 3)) == 0:
+                # a bound of exactly 0 (RSOME treats columns with ub == 0 / lb == 0 as signed variables when it dualises a set)
+                j = draw(st.integers(0, len(c) - 1))
+                if c[j] <= 0 and lo[j] < 0:
+                    hi[j] = 0.0
+                elif c[j] > 0:
+                    lo[j] = 0.0
             pieces.append({'t': 'box', 'lo': lo, 'hi': hi,
                            'style': draw(st.sampled_from(['bounds', 'rows', 'split']))})
         elif f == 'linf':
